@@ -1,19 +1,18 @@
-use mjv::props::c10;
+use mjv::props::c02;
 use mjv::runner::{Part, Tier};
 use proptest::strategy::{Strategy, ValueTree};
 use proptest::test_runner::{Config, RngSeed, TestRunner};
 fn main() {
-    let mut runner = TestRunner::new(Config { rng_seed: RngSeed::Fixed(7), failure_persistence: None, ..Config::default() });
-    eprintln!("building strategy");
-    let strat = c10::Delimiters::strategy(Tier::Quick);
-    eprintln!("built");
-    for i in 0..3000 {
-        eprintln!("gen {i}");
+    mjv::isolate::limit_address_space(3 << 30);
+    let seed: u64 = std::env::args().nth(1).and_then(|s| s.parse().ok()).unwrap_or(7);
+    let mut runner = TestRunner::new(Config { rng_seed: RngSeed::Fixed(seed), failure_persistence: None, ..Config::default() });
+    let strat = c02::Soundness::strategy(Tier::Quick);
+    for i in 0..20000 {
         let c = strat.new_tree(&mut runner).unwrap().current();
-        eprintln!("generated");
-        let js = serde_json::to_string(&<c10::Delimiters as Part>::show(&c)).unwrap();
-        eprintln!("CASE {i} {js}");
-        let v = c10::Delimiters::check(&c);
-        if let Some(f) = v.fail { eprintln!("FAIL {} {}", f.signature, &f.detail[..f.detail.len().min(500)]); }
+        let js = serde_json::to_string(&<c02::Soundness as Part>::show(&c)).unwrap();
+        std::fs::write("/tmp/p5.case", &js).unwrap();
+        let t0 = std::time::Instant::now();
+        let _ = c02::Soundness::check(&c);
+        if t0.elapsed().as_millis() > 1000 { eprintln!("SLOW {i} {:?} {js}", t0.elapsed()); }
     }
 }
